@@ -5,10 +5,13 @@ mod asm;
 mod base;
 mod compile;
 mod cerr;
+mod cldb;
+mod cldbsrc;
 mod conv;
 mod reader;
 mod repl;
 mod rich;
+mod step;
 mod syms;
 mod unused;
 
@@ -25,6 +28,9 @@ fn main() {
         "base" => base::run(&rest),
         "compile" => compile::run(&rest),
         "conv" => conv::run(&rest),
+        "step" => step::run(&rest),
+        "cldb" => cldb::run(&rest),
+        "cldb-compile" => cldbsrc::run(&rest),
         "reader" => reader::run(&rest),
         "cerr" => cerr::run(&rest),
         "repl" => repl::run(&rest),
